@@ -654,3 +654,43 @@ fn c04_rtcp_gcm_roundtrip_12() {
     rx.unprotect_rtcp(&mut p).unwrap();
     assert!(p[..] == raw[..]);
 }
+
+
+/// RFC 5764 4.1.2 (and RFC 3711 3.4 / libsrtp / webrtc-srtp): SRTP_AES128_CM_HMAC_SHA1_32 shortens
+/// the SRTP tag to 32 bits but keeps the 80-bit tag for SRTCP ("RTCP auth_tag_length: 80").
+/// protect_rtcp must therefore append index(4) + 10 tag bytes under every HMAC-SHA1 profile.
+fn rtcp_tag_len_obligation(profile: SrtpProfile) {
+    let ak = [0x5au8; 20];
+    let mut tx = ctx_cm(profile, &ak, [0x11; 16]);
+    kani::assume(tx.rtcp_index < 0x7FFF_FFFE);
+    let raw: [u8; 12] = kani::any();
+    let mut p = raw.to_vec();
+    tx.protect_rtcp(&mut p).unwrap();
+    assert!(p.len() == 12 + 4 + 10);
+}
+#[kani::proof]
+#[kani::unwind(30)]
+fn c04_rtcp_tag_len_rfc5764_sha32() { rtcp_tag_len_obligation(SrtpProfile::Aes128Sha1_32); }
+#[kani::proof]
+#[kani::unwind(30)]
+fn c04_rtcp_tag_len_rfc5764_sha80() { rtcp_tag_len_obligation(SrtpProfile::Aes128Sha1_80); }
+/// SRTCP round trip under the _32 profile (whatever the tag length, unprotect inverts protect)
+#[kani::proof]
+#[kani::unwind(30)]
+fn c04_rtcp_roundtrip_sha32_12() { rtcp_roundtrip_obligation_any_tag::<12>(SrtpProfile::Aes128Sha1_32); }
+fn rtcp_roundtrip_obligation_any_tag<const N: usize>(profile: SrtpProfile) {
+    let ak = [0x5au8; 20];
+    let mut tx = ctx_cm(profile, &ak, [0x11; 16]);
+    let mut rx = ctx_cm(profile, &ak, [0x11; 16]);
+    rx.ssrc = tx.ssrc; rx.rtcp_keys.salt = tx.rtcp_keys.salt.clone();
+    kani::assume(tx.rtcp_index < 0x7FFF_FFFE);
+    let raw: [u8; N] = kani::any();
+    let mut p = raw.to_vec();
+    tx.protect_rtcp(&mut p).unwrap();
+    rx.unprotect_rtcp(&mut p).unwrap();
+    assert!(p[..] == raw[..]);
+}
+/// padding-only packet (empty payload, P bit set): the round trip must hold for it too
+#[kani::proof]
+#[kani::unwind(30)]
+fn c04_roundtrip_sha80_p0_pad1() { roundtrip_obligation::<0, 1, 23>(SrtpProfile::Aes128Sha1_80); }
